@@ -30,6 +30,17 @@ CHECKS = {
         "One open known finding (k^d expansion of nested argument-multiplying templates) is excluded by construction and replayed as witness.",
         "DESIGN.md section 2 C03",
     ),
+    "C04": (
+        "exploration",
+        "Hypothesis-generated template programs and #expr trees (ASTs) serialised to wikitext; differential against an independent reference "
+        "interpreter / evaluator over the AST; metamorphic minimal- vs full-parenthesis spellings; identity on syntax-free text",
+        "The expected expansion is computed from the AST by a reference interpreter that never sees the wikitext and imports nothing from "
+        "mwlib; thousands of programs and expressions per run are compared string-for-string (programs) or numerically with a stated "
+        "tolerance (#expr).",
+        "The reference encodes MediaWiki's documented semantics as the property states them; leaves are restricted so that disputable "
+        "corners (implicit newlines, duplicate bindings, float formatting, e-notation numerics) are not generated.",
+        "DESIGN.md section 2 C04",
+    ),
     "C05": (
         "exploration",
         "same generators as C01 (+ cleaner-trigger lexemes); independent iterative tree validator after build_advanced_tree and after each of "
